@@ -133,10 +133,14 @@ def structural(res, what, sig, fit, rfi, one, check_model=True):
     return True
 
 
+_PREV = []
+
+
 def run_case(c):
     import FlowCal
     fitf = FlowCal.mef.fit_beads_autofluorescence
     res = Result()
+    _PREV[:] = []
     with warnings.catch_warnings():
         warnings.simplefilter('ignore')
         if c['kind'] == 'lattice':
@@ -167,6 +171,16 @@ def run_case(c):
                         continue
                     if not structural(res, what, 'lattice', fit, rfi, one):
                         continue
+                    # an earlier fit (of this lattice point) still gives the answers it gave before this fit was made
+                    xs_h = np.array([0.5, 7.0, 123.4, 1e4])
+                    if _PREV:
+                        pf, pvals, ppar, pwhat = _PREV[0]
+                        now_v = np.asarray(pf[0](xs_h), dtype=float).tolist() + np.asarray(pf[1](xs_h), dtype=float).tolist()
+                        if now_v != pvals or [float(x) for x in pf[2]] != ppar:
+                            res.violation('lattice:earlier-fit-changed', 'after %s, the standard curve / bead model / parameters of the earlier %s changed' % (what, pwhat), dict(kind='lattice', m=m, b=b))
+                            _PREV[:] = []
+                            continue
+                    _PREV[:] = [(fit, np.asarray(fit[0](xs_h), dtype=float).tolist() + np.asarray(fit[1](xs_h), dtype=float).tolist(), [float(x) for x in fit[2]], what)]
                     if len(bright) >= 5:
                         lo = min(r for r, v in zip(rfi, mef) if v > 0) if any(v > 0 for v in mef) else rfi.min()
                         grid = np.exp(np.linspace(np.log(float(lo)), np.log(float(rfi.max())), 50))
@@ -205,7 +219,9 @@ def run_case(c):
                    ([1.0, 2.0, 3.0, 4.0], [1.0, 2.0, 3.0]), ([1.0, 2.0, 3.0], [1.0, 2.0, 3.0, 4.0]),
                    ([3.0, 9.0, 27.0, 81.0, 243.0, 729.0], [10.0, 30.0, 90.0, 270.0, 810.0, 2430.0, 7290.0, 21870.0]),
                    ([3.0, 9.0, 27.0, 81.0, 243.0, 729.0, 2000.0, 6000.0], [10.0, 30.0, 90.0, 270.0, 810.0, 2430.0]),
-                   ([5.0, 50.0, 500.0], [10.0, 100.0, 1000.0, 10000.0, 100000.0])]
+                   ([5.0, 50.0, 500.0], [10.0, 100.0, 1000.0, 10000.0, 100000.0]),
+                   # one value against many (broadcastable shapes are still different numbers of beads)
+                   ([5.0], [10.0, 100.0, 1000.0, 10000.0]), ([5.0, 50.0, 500.0, 5000.0], [10.0]), ([5.0], [10.0, 100.0, 1000.0]), ([2.0, 20.0, 200.0], [273006.0])]
             for rfi, mef in bad:
                 for wrap in (np.array, list):
                     try:
